@@ -10,7 +10,9 @@ INVARIANTS = ["EntryPathIrrelevant", "NoKeepNoChange", "FindBinPure", "BinConten
 def run(tier, seed):
     ctx = CheckContext("C03", tier, seed)
     ctx.invariants = INVARIANTS
-    cfg = "MC_Hist1D_quick" if tier == "quick" else "MC_Hist1D_thorough"
+    if tier == "thorough":
+        ctx.model_check("MC_Hist1D_thorough", dump=False)      # deep exhaustive run of the invariants (too large to replay)
+    cfg = "MC_Hist1D_quick" if tier == "quick" else "MC_Hist1D_mid"
     _res, g = ctx.model_check(cfg, required_actions=["NewEmpty", "Construct", "Fill", "FillN", "FindBin"])
     combos = [("dyadic", "int", 0), ("ulp", "half", 1)]
     if tier == "thorough":
@@ -18,6 +20,11 @@ def run(tier, seed):
     for pe, we, sp in combos:
         ctx.replay(g, Hist1DAdapter(POS[pe], WTS[we], spelling=sp), VIEW, label=f"1D:{pe}/{we}/sp{sp}",
                    edge_budget=60000 if tier == "quick" else 400000)
+    if tier == "thorough":
+        # random behaviours of 8 calls (beyond the exhaustive bound), replayed call by call
+        gs = ctx.simulate("MC_Hist1D_quick", "MC_Hist1D_sim", num=1500, depth=9)
+        for pe, we, sp in [("dyadic", "int", 0), ("ulp", "half", 1), ("decimal", "npint", 2)]:
+            ctx.replay(gs, Hist1DAdapter(POS[pe], WTS[we], spelling=sp), VIEW, label=f"1D-sim:{pe}/{we}/sp{sp}")
     nd_part(ctx, tier)
     ctx.assumptions = ["binning depends only on the order of values and edges (embedding fan-out)",
                        "histories are bounded (see tlc_runs), batches <= 2 (quick) / 3 (thorough) entries"]
